@@ -205,6 +205,7 @@ pub fn worker() {
             "diag" => diag_case(&case),
             "history" => history_case(&case),
             "eval" => eval_case(&case),
+            "ddq" => ddq_case(&case),
             other => json!({"e": "panic", "where": format!("unknown worker job {other}"), "id": 0, "message": ""}),
         };
         let mut o = stdout.lock();
@@ -495,4 +496,47 @@ pub fn eval_case(case: &J) -> J {
         results.insert(name.clone(), r);
     }
     json!({"e": "law", "law": case["law"], "inp": case["inp"], "tz": tzname, "src": case["law"], "r": J::Object(results)})
+}
+
+// ---------------------------------------------------------------------------------------------
+// C30: datadog search query text -> tree -> lucene text -> tree
+
+pub fn ddq_case(case: &J) -> J {
+    use vrl::datadog_search_syntax::QueryNode;
+    let q = case["q"].as_str().unwrap_or("").to_owned();
+    let r = catch_unwind(AssertUnwindSafe(|| {
+        let first = q.parse::<QueryNode>();
+        match first {
+            Err(_) => json!({"k": "ok", "parsed": false, "tree": "", "lucene": "", "reparsed": false, "tree2": "", "same": false}),
+            Ok(n) => {
+                let lucene = n.to_lucene();
+                match lucene.parse::<QueryNode>() {
+                    Err(e) => json!({"k": "ok", "parsed": true, "tree": format!("{n:?}"), "lucene": lucene, "reparsed": false, "tree2": format!("{e}"), "same": false}),
+                    Ok(n2) => json!({"k": "ok", "parsed": true, "tree": format!("{n:?}"), "lucene": lucene, "reparsed": true, "tree2": format!("{n2:?}"), "same": n == n2}),
+                }
+            }
+        }
+    }));
+    // circumstances visible in the parsed tree (they name a finding): a term / prefix / wildcard value
+    // that contains a space, a negation directly under a negation
+    let shape = match &r {
+        Ok(j) => {
+            let tree = j["tree"].as_str().unwrap_or("");
+            let spaced = regex::Regex::new(r#"(value|prefix|wildcard): "[^"]* [^"]*""#).unwrap().is_match(tree);
+            if tree.contains("NegatedNode { node: NegatedNode") {
+                json!("double-negation")
+            } else if spaced {
+                json!("term-value-with-space")
+            } else {
+                case["shape"].clone()
+            }
+        }
+        Err(_) => case["shape"].clone(),
+    };
+    let case = &json!({"shape": shape});
+    match r {
+        Ok(j) => json!({"e": "law", "law": {"name": "dd_roundtrip", "fn": "datadog_search"}, "inp": {"q": q, "shape": case["shape"]}, "src": q, "r": {"rt": j}}),
+        Err(p) => json!({"e": "law", "law": {"name": "dd_roundtrip", "fn": "datadog_search"}, "inp": {"q": q, "shape": case["shape"]}, "src": q,
+                         "r": {"rt": {"k": "panic", "m": panic_message(&p), "parsed": false, "tree": "", "lucene": "", "reparsed": false, "tree2": "", "same": false}}}),
+    }
 }
